@@ -214,12 +214,13 @@ class FunctionParser(BaseParser):
                 self.pos_var_index = i
                 self.pos_var = k
                 if v.annotation != v.empty:
-                    self.pos_annotation = v.annotation
+                    # like a regular parameter: `*args: None` declares NoneType (None itself would read as "no annotation")
+                    self.pos_annotation = type(None) if v.annotation is None else v.annotation
                 continue
             elif v.kind == v.VAR_KEYWORD:
                 self.kw_var = k
                 if v.annotation != v.empty:
-                    self.kw_annotation = v.annotation
+                    self.kw_annotation = type(None) if v.annotation is None else v.annotation
                 continue
             else:
                 common_arg_names.append(k)
